@@ -589,6 +589,15 @@ def _comm(pid):
         return None
 
 
+def _serves(pid, vmd_dir):
+    """The process was started with NLVERIF_VMD_DIR=<vmd_dir> (guards against a recycled pid in a stale pid file)."""
+    try:
+        with open("/proc/%d/environ" % pid, "rb") as f:
+            return ("NLVERIF_VMD_DIR=" + vmd_dir).encode() in f.read().split(b"\0")
+    except OSError:
+        return False
+
+
 def pid_alive(pid):
     """True while the process exists and is not a zombie."""
     try:
@@ -728,7 +737,7 @@ class Daemon:
         try:
             with open(pid_path(self.vmd_dir)) as f:
                 p = int(f.read().strip() or 0)
-            if p > 1 and p != os.getpid() and _comm(p) == "nano_vmd":
+            if p > 1 and p != os.getpid() and _comm(p) == "nano_vmd" and _serves(p, self.vmd_dir):
                 victims.add(p)                     # e.g. a daemon lazily launched by a `nano_vm --daemon` client
         except (OSError, ValueError):
             pass
